@@ -11,7 +11,8 @@ over the stored routes) this is the observable equivalence of the property.
 Expansion half (`C04_expansions_are_the_grammars`): the expansion texts the parser produces are exactly
 `topExpansions` of `Spec/Expand.lean` — every group independently kept (recursively) or dropped, an inner group only
 inside a kept outer one, kept variants first, and only a completely empty result replaced by "/" — in that order.
-Status: proved; the statements on live templates assume pairwise different expansions (see C01). -/
+Status: proved for every history (when two expansions of one template have the same parts, the value stored for that
+route is the one of the later expansion — of the earlier one for a catch-all — see `pick`, Proofs/Registry2). -/
 
 theorem C04_insert_is_expansion_fold (r r' : Router) (t : Bytes) (d : Nat) (h : r.insert t d = .ok r') :
     ∃ ts, parseTemplates t = .ok ts ∧
@@ -43,10 +44,10 @@ theorem C04_expansion_info (t : Bytes) (d cell : Nat) (e : Bytes × List Part) :
 match reports `t` with the matching expansion as `expanded` (or `none` for a single expansion), by C02/C06 exactly the
 paths some expansion fits are (newly) routed. -/
 theorem C04_insert_adds_the_expansions (env : Env) (r r' : Router) (L : List LiveT) (h : Live r L) (t : Bytes) (d : Nat)
-    (hi : r.insert t d = .ok r') (ts : List (Bytes × List Part)) (hp : parseTemplates t = .ok ts) (hd : DistinctExps ts) (path : Bytes) :
+    (hi : r.insert t d = .ok r') (ts : List (Bytes × List Part)) (hp : parseTemplates t = .ok ts) (path : Bytes) :
     ((∃ e ∈ ts, ∃ vs, Fits env e.2 path vs) → (r'.search env path).isSome = true) ∧
     ((¬ ∃ e ∈ ts, ∃ vs, Fits env e.2 path vs) → r'.search env path = r.search env path) :=
-  ⟨insert_routes env h hi ts hp hd path, insert_local env h hi ts hp hd path⟩
+  ⟨insert_routes env h hi ts hp path, insert_local env h hi ts hp path⟩
 
 /-- every accepted template has at least one expansion; the fuel of the expansion model never runs out -/
 theorem C04_at_least_one_expansion (t : Bytes) (ts : List (Bytes × List Part)) (hp : parseTemplates t = .ok ts) : ts ≠ [] :=
@@ -61,3 +62,7 @@ theorem C04_expansions_are_the_grammars (input : Bytes) (ts : List (Bytes × Lis
 theorem C04_group_keep_or_drop (g rest : Items) :
     Items.exps (.cons (.grp g) rest) = (Items.exps g ++ [[]]).flatMap (fun a => (Items.exps rest).map (a ++ ·)) := by
   simp [Items.exps, Item.alts]
+
+/-- two expansions with the same parts (`(/a)(/\a)`: texts `/a` and `/\a`): the route reports the later one -/
+example : pick [Part.stat [47, 97]] [([47, 97], [Part.stat [47, 97]]), ([47, 92, 97], [Part.stat [47, 97]])] =
+    some ([47, 92, 97], [Part.stat [47, 97]]) := by decide
